@@ -47,11 +47,43 @@ Theorem no_lost_wakeup :
 Proof. exact no_lost_wakeup_run. Qed.
 Print Assumptions no_lost_wakeup.
 
+(* THE OWNER CAN FINISH.  (enabled s ev := exists s', step s ev = Some s'.)
+   In every reachable state, for the owner d of an event e on a loop that is running or being shut
+   down, the next step of d's program is accepted by the model unless d is waiting for the lock or
+   for its own invocation of the user function:
+     leaving the with-block (Rel), entering the user function (IStart), storing the result (SetC)
+     are enabled outright; the `finally` block (Acq at PFinLock) is enabled as soon as the lock is
+     free; while the user function runs (PComp) the environment may end it: as cancelled when d
+     was cancelled (even if its loop stopped meanwhile: invocation status IAband), with a result or
+     an exception when d is uncancelled on a loop that never stopped.
+   So on the owner's way Decide -> Fin there is no wait on anything but the lock and the user
+   computation.  And Fin does what no_lost_wakeup promises: the accepted Acq at PFinLock e o sets e
+   (under the lock) and moves d to PFinUnlock o. *)
+Theorem owner_can_finish :
+  forall nloops tbl tr s, run (init nloops tbl) tr = Some s ->
+  forall d dr e, getc s d = Some dr -> own_ev (cpc dr) = Some e -> alive (lp s (cloop dr)) = true ->
+    match cpc dr with
+    | PUnlock (DComp _) => enabled s (Rel (cloop dr) d)
+    | PInvoke _ => enabled s (IStart (length (invs s)) d (now s))
+    | PComp i _ =>
+        if ccanc dr then enabled s (IEnd i 2 (now s))
+        else lp s (cloop dr) = LRun -> enabled s (IEnd i 0 (now s)) /\ enabled s (IEnd i 1 (now s))
+    | PPublish _ _ => enabled s (SetC (cloop dr) d)
+    | PFinLock _ _ => lock s = None -> enabled s (Acq (cloop dr) d)
+    | _ => True
+    end
+    /\ (forall o s', cpc dr = PFinLock e o -> step s (Acq (cloop dr) d) = Some s' ->
+          isset s' e = true /\ exists dr', getc s' d = Some dr' /\ cpc dr' = PFinUnlock o).
+Proof. exact owner_can_finish_run. Qed.
+Print Assumptions owner_can_finish.
+
 (* PROMPT.  In every reachable state s:
    (a) time cannot pass over a wake-up: if the clock event Adv t is accepted then the lock is free
-       and every caller on a loop that is running or being shut down is parked (PStart, PDone, an
-       uncancelled computation, or an uncancelled wait) and, if it waits, its event is NOT set (for
-       a cross-loop wait: not set or the computing loop is dead, and the proxy has not finished);
+       and every caller on a RUNNING loop is parked (PStart, PDone, an uncancelled computation, or
+       an uncancelled wait) and, if it waits, its event is NOT set (for a cross-loop wait: not set
+       or the computing loop is dead, and the proxy has not finished) and its deadline is ahead;
+       every caller on a loop in its SHUTDOWN run is unstarted or done (a started, unfinished call
+       on such a loop always stops the clock: the shutdown run cancels and finishes it at once);
    (b) the wake-up steps are enabled and cost no time: for an uncancelled caller c on a running
        loop, waiting on its own loop for an event that is set, Get (the wait returning and the
        re-probe) is accepted; waiting across loops for an event that is set on a live loop l, the
@@ -63,14 +95,16 @@ Theorem prompt :
   forall nloops tbl tr s, run (init nloops tbl) tr = Some s ->
   (forall t s', step s (Adv t) = Some s' ->
      lock s = None /\ (now s <= t)%N /\
-     forall c cr, getc s c = Some cr -> alive (lp s (cloop cr)) = true ->
-       suspended (cpc cr) = true
-       /\ (forall i e, cpc cr = PComp i e -> ccanc cr = false)
-       /\ (forall e dl, cpc cr = PWait e dl ->
-             ccanc cr = false /\ isset s e = false /\ (now s < dl)%N /\ (t <= dl)%N)
-       /\ (forall l e dl xd xs, cpc cr = PWaitX l e dl xd xs ->
-             ccanc cr = false /\ xd = None /\ (isset s e = false \/ alive (lp s l) = false)
-             /\ (now s < dl)%N /\ (t <= dl)%N))
+     forall c cr, getc s c = Some cr ->
+       (lp s (cloop cr) = LShut -> done_or_unstarted (cpc cr) = true)
+       /\ (lp s (cloop cr) = LRun ->
+           suspended (cpc cr) = true
+           /\ (forall i e, cpc cr = PComp i e -> ccanc cr = false)
+           /\ (forall e dl, cpc cr = PWait e dl ->
+                 ccanc cr = false /\ isset s e = false /\ (now s < dl)%N /\ (t <= dl)%N)
+           /\ (forall l e dl xd xs, cpc cr = PWaitX l e dl xd xs ->
+                 ccanc cr = false /\ xd = None /\ (isset s e = false \/ alive (lp s l) = false)
+                 /\ (now s < dl)%N /\ (t <= dl)%N)))
   /\ (forall c cr, getc s c = Some cr -> ccanc cr = false -> lp s (cloop cr) = LRun ->
         (forall e dl, cpc cr = PWait e dl -> isset s e = true ->
            exists s1, step s (Get (cloop cr) c) = Some s1 /\ now s1 = now s)
@@ -110,6 +144,31 @@ Theorem rescue_within_60 :
 Proof. exact rescue_within_60_run. Qed.
 Print Assumptions rescue_within_60.
 
+(* NO DEADLOCK.  In every reachable state in which some caller on a loop that is running or being
+   shut down has started and not finished its call (pc neither PStart nor PDone), the model accepts
+   a PROGRESS event: a gated step of some thread (Get Miss Acq Rel SetC XSub), the start or the end
+   of an invocation of the user function (IStart / IEnd — "each invocation finishes or is
+   cancelled" is the property's assumption), a call completing (Done), a proxy wait completing
+   (Proxy), a clock advance to a STRICTLY later tick (Adv t with now < t: nothing else can move and
+   t is the earliest deadline of a waiter on a live loop), or — only for a loop in its shutdown run
+   (LShut) — the shutdown cancelling a not yet cancelled task parked on that loop (Cancel).
+   Never counted: End, loop life-cycle events, a cancellation on a running loop, a clock event that
+   does not move the clock.  This is CacheLive.progress_event.
+   Deviation from DESIGN 5.5 (kept visible): DESIGN lists "a thread step, an environment completion
+   of an Active invocation, or an Advance"; the statement without the Cancel clause is FALSE of the
+   model: an uncancelled computation or wait parked on a loop in its shutdown run stops the clock
+   (Cache.blocked is false for every started, unfinished call on an LShut loop) and, since Get and
+   IEnd 0/1 need a running loop / an uncancelled caller, can only be moved by the shutdown's own
+   cancellation of its task — which is what asyncio's shutdown run does
+   (Example c05_shutdown_needs_cancel). *)
+Theorem no_deadlock :
+  forall nloops tbl tr s, run (init nloops tbl) tr = Some s ->
+  forall c cr, getc s c = Some cr -> alive (lp s (cloop cr)) = true ->
+    done_or_unstarted (cpc cr) = false ->
+    exists e s', step s e = Some s' /\ progress_event s e = true.
+Proof. exact no_deadlock_run. Qed.
+Print Assumptions no_deadlock.
+
 (* ---- non-vacuity ---- *)
 Definition c05_trace : list ev :=
   [Get 0 0; Miss 0 0; Acq 0 0; Get 0 0; Miss 0 0; Rel 0 0; IStart 0 0 0%N;
@@ -137,3 +196,48 @@ Example c05_adv_enabled :
     /\ isset s 0 = false /\ getc s 0 = Some cr0 /\ own_ev (cpc cr0) = Some 0
     /\ step s (Adv 5%N) = Some s'.
 Proof. eexists. eexists. eexists. split; [vm_compute; reflexivity|]. vm_compute. repeat split. Qed.
+
+(* the owner on its way to Fin (hypothesis of owner_can_finish), and a state in which the only
+   progress event is the clock (hypothesis and the Adv alternative of no_deadlock) *)
+Example c05_owner_midway :
+  exists s cr0, run (init 2 [(0,0); (1,0)]) (firstn 16 c05_trace) = Some s
+    /\ getc s 0 = Some cr0 /\ cpc cr0 = PPublish 0 0 /\ lp s 0 = LRun /\ isset s 0 = false.
+Proof. eexists. eexists. split; [vm_compute; reflexivity|]. vm_compute. repeat split. Qed.
+
+(* the computing loop 0 stops mid-computation: nothing can move but the clock, which is accepted
+   up to the waiter's deadline (the Adv alternative of no_deadlock, rescue_within_60 (a)); at the
+   deadline caller 1 times out, re-probes, and its Decide finds loop 0 dead and takes the key over
+   with the fresh event 1 (rescue_within_60 (b)) *)
+Example c05_rescue_after_loop_death :
+  exists s s1 cr1,
+    run (init 2 [(0,0); (1,0)])
+        [Get 0 0; Miss 0 0; Acq 0 0; Get 0 0; Miss 0 0; Rel 0 0; IStart 0 0 0%N;
+         Get 1 1; Miss 1 1; Acq 1 1; Get 1 1; Miss 1 1; Rel 1 1; XSub 1 1; LoopEv 0 0] = Some s
+    /\ progress_event s (Adv 61440%N) = true /\ step s (Adv 61441%N) = None
+    /\ run s [Adv 61440%N; Get 1 1; Miss 1 1; Acq 1 1; Get 1 1; Miss 1 1] = Some s1
+    /\ getc s1 1 = Some cr1 /\ cpc cr1 = PUnlock (DComp 1) /\ marker_at s1 0 = Some (1, 1)
+    /\ now s1 = 61440%N.
+Proof.
+  eexists. eexists. eexists. split; [vm_compute; reflexivity|]. vm_compute. repeat split.
+Qed.
+
+(* why no_deadlock counts the shutdown's Cancel: callers 0 and 1 share loop 0; the loop stops and
+   enters its shutdown run while 0 computes and 1 waits; 0 is cancelled and its Fin sets the event.
+   Now the uncancelled waiter 1 is parked on a loop that is no longer running with its event set:
+   the clock refuses to move, the wait cannot return (Get needs a running loop), the call cannot
+   end — the one thing the model accepts for caller 1 is the shutdown cancelling its task. *)
+Example c05_shutdown_needs_cancel :
+  exists s, run (init 1 [(0,0); (0,0)])
+                [Get 0 0; Miss 0 0; Acq 0 0; Get 0 0; Miss 0 0; Rel 0 0; IStart 0 0 0%N;
+                 Get 0 1; Miss 0 1; Acq 0 1; Get 0 1; Miss 0 1; Rel 0 1; LoopEv 0 0; LoopEv 0 1;
+                 Cancel 0 0%N; IEnd 0 2 0%N; Acq 0 0; Rel 0 0; Done 0 2 0 0%N] = Some s
+    /\ (forall t, step s (Adv t) = None) /\ (forall t, step s (Get t 1) = None)
+    /\ (forall k p t, step s (Done 1 k p t) = None) /\ (forall t r, step s (Proxy t 1 r) = None)
+    /\ exists s', step s (Cancel 1 0%N) = Some s' /\ progress_event s (Cancel 1 0%N) = true.
+Proof.
+  eexists. split; [vm_compute; reflexivity|]. repeat split.
+  - intros t. unfold step, guard, quiescent; simpl. destruct (0 <=? t)%N; reflexivity.
+  - intros [|t]; reflexivity.
+  - intros k p t. unfold step; simpl. destruct (t =? 0)%N; reflexivity.
+  - eexists. split; vm_compute; reflexivity.
+Qed.
